@@ -64,8 +64,10 @@ def lint(project, source, filename=None, debug=False):
                     if getattr(n, 'scope', None) is flow.scope:
                         use_name(n)
             else:
-                if type(sname) is ImportedName and sname.qualified:
-                    qualified_imports.add(sname.name)
+                # a dotted import may reach the read through several branches
+                alts = sname.alt_names if type(sname) is MultiName else [sname]
+                qualified_imports.update(alt.name for alt in alts
+                                         if type(alt) is ImportedName and alt.qualified)
 
                 use_name(sname)
 
